@@ -537,7 +537,8 @@ impl RunState {
                 let mut addr = self.reg(0);
                 'string: loop {
                     let chr_raw = self.mem(addr);
-                    for chr in [chr_raw >> 8, chr_raw & 0xFF] {
+                    // Bits [7:0] are written first, then bits [15:8] (LC-3 ISA, PUTSP)
+                    for chr in [chr_raw & 0xFF, chr_raw >> 8] {
                         let chr_ascii = chr as u8 as char;
                         if chr_ascii == '\0' {
                             break 'string;
